@@ -177,5 +177,6 @@ func sxDebug(tag string, v any) { sxDbg = append(sxDbg, fmt.Sprintf("%s=%v", tag
 var sxDbg []string
 
 func sxOpt(name string, on bool) {}
+func sxOptN(name string, n int)  {}
 func sxNote(s string)            {}
 func sxSymbolic() bool           { return false }
